@@ -160,7 +160,7 @@ def seq_view(ex, ctx, st, it, node):
                 ctx.assume(ln >= 0, "container-length-nonnegative")
                 from . import types as T
                 lst = it
-                return SeqView(ln, lambda j, c=None: T.elem(ex, c or ctx, st, lst, z3.Select(el, j)), "list")
+                return SeqView(ln, lambda j, c=None: T.elem(ex, c or ctx, st, lst, z3.Select(el, j), j), "list")
             return containers.keys_view(ex, ctx, st, it, node)
     ex.raise_(st, "TypeError", node)
 
@@ -179,6 +179,7 @@ def subst_sv(sv, pairs, memo=None):
     if k == "ref":
         r = SV(k, z3.substitute(sv.t, *pairs), cls=sv.cls)
         r.ety = sv.ety
+        r.eguard = z3.substitute(sv.eguard, *pairs) if sv.eguard is not None else None
         return r
     if k == "tup":
         return SV(k, [subst_sv(x, pairs) for x in sv.t])
@@ -271,7 +272,7 @@ def _run_body(ex, st_in, s, view, j, setup, on_continue=None):
     return run
 
 
-def classify(ex, ctx, st, W, attrs, h_loc, h_heap, cont, hsyms, tracked, typed_vars=(), s0=None):
+def classify(ex, gpc, st, W, attrs, h_loc, h_heap, cont, hsyms, tracked, typed_vars=(), s0=None):
     """Pass-1 classification of carried locals and heap arrays."""
     cls_loc = {}
     for v in W:
@@ -309,7 +310,8 @@ def classify(ex, ctx, st, W, attrs, h_loc, h_heap, cont, hsyms, tracked, typed_v
             for r, f in zip(cont, finals):
                 sv = z3.Solver()
                 sv.set("timeout", 2000)
-                sv.add(*ctx.pc)
+                if gpc:
+                    sv.add(*gpc)
                 sv.add(*r.pc)
                 sv.add(z3.Select(f, tr) != z3.Select(h_heap[a], tr))
                 if sv.check() != z3.unsat:
@@ -321,28 +323,45 @@ def classify(ex, ctx, st, W, attrs, h_loc, h_heap, cont, hsyms, tracked, typed_v
     return cls_loc, cls_heap
 
 
-def sym_for(ex, ctx, st, s, view):
+_LOOP_CACHE = {}
+_loop_n = [0]
+
+
+class LoopSummary:
+    pass
+
+
+def global_facts(ctx):
+    return [c for c, k in zip(ctx.pc, ctx.kinds) if k == "G"]
+
+
+def compute_loop_summary(ex, gpc, st, s, view, stats, branch_timeout_ms):
+    """Path-condition independent summary of one for-loop from the entry state `st` (cached by state signature)."""
+    _loop_n[0] += 1
+    uid = f"L{_loop_n[0]}"
     n = view.n
     fr_i = len(st.frames) - 1
     fr = st.frames[fr_i]
     W = sorted(assigned_names(s.body) | target_names(s.target))
-    nl = fr.vars.get("$nonlocal")
     attrs = sorted(mutable_attrs(ex))
     for a in attrs:
         ex.heap_get(st, a)
     s0 = {v: fr.vars.get(v) for v in W}
     heap0 = dict(st.heap)
-    j = ctx.fresh("j", Int)
+    j = z3.Int(f"j!{uid}")
     base = [j >= 0, j < n]
-    stats = ctx.explorer.stats
+    L = LoopSummary()
+    L.j, L.n, L.W, L.attrs, L.fr_i = j, n, W, attrs, fr_i
 
     # ---------------- explicit invariant (sidecar `loop_inv_<n>`), bound by loop ordinal and local names
     inv = None
+    n_loop = None
     if fr_i == getattr(ex, "top_frame_index", -1):
         n_loop = ex.loop_ids.get(id(s))
         inv = ex.loop_invs.get(n_loop)
+    L.inv, L.n_loop = inv, n_loop
 
-    def eval_inv(c2, st2, jj):
+    def eval_inv(c2, st2, jj, as_goal=False):
         scope, fdef = inv
         f2 = st2.frames[fr_i]
         args = []
@@ -354,26 +373,24 @@ def sym_for(ex, ctx, st, s, view):
             else:
                 raise CheckerError(f"loop invariant {fdef.name}: no local named {a.arg}")
         from . import calls
-        return calls.eval_spec_bool(ex, c2, st2, (scope, fdef), args)
+        return calls.eval_spec_bool(ex, c2, st2, (scope, fdef), args, as_goal=as_goal)
 
-    if inv is not None:
-        ctx.oblige(f"{fr.fname}#loop{n_loop}.invariant-initial", eval_inv(ctx, st, z3.IntVal(0)),
-                   {"kind": "loop-invariant", "line": s.lineno})
+    L.eval_inv = eval_inv
 
     # ---------------- pass 1: havocked carried state (scalars keep their kind while every continue path does)
     SC = {"int": Int, "str": z3.StringSort(), "bool": z3.BoolSort(), "flt": z3.RealSort()}
     typed_vars = {v for v in W if s0[v] is not None and s0[v].k in SC}
-    h_heap = {a: z3.Const(f"hH_{a.replace('$', 'S')}!{ctx.explorer.uid}.{ctx.fresh_n}", heap0[a].sort()) for a in attrs}
+    h_heap = {a: z3.Const(f"hH_{a.replace('$', 'S')}!{uid}", heap0[a].sort()) for a in attrs}
     while True:
         h_loc = {}
         h_sv = {}
         for v in W:
             if v in typed_vars:
-                t = z3.Const(f"h_{v}!{ctx.explorer.uid}.{ctx.fresh_n}", SC[s0[v].k])
+                t = z3.Const(f"h_{v}!{uid}", SC[s0[v].k])
                 h_loc[v] = t
                 h_sv[v] = SV(s0[v].k, t)
             else:
-                t = z3.Const(f"h_{v}!{ctx.explorer.uid}.{ctx.fresh_n}", V)
+                t = z3.Const(f"h_{v}!{uid}", V)
                 h_loc[v] = t
                 h_sv[v] = mk_any(t)
         hsyms = {t.decl().name() for t in list(h_loc.values()) + list(h_heap.values())}
@@ -387,7 +404,7 @@ def sym_for(ex, ctx, st, s, view):
             if inv is not None:
                 c2.assume(eval_inv(c2, st2, j))
 
-        sub1 = Explorer(base_pc=ctx.pc + base, branch_timeout_ms=ctx.explorer.branch_timeout_ms, stats=stats)
+        sub1 = Explorer(base_pc=gpc + base, branch_timeout_ms=branch_timeout_ms, stats=stats)
         res1 = sub1.explore(_run_body(ex, st, s, view, j, setup1))
         cont1 = [r for r in res1 if r.outcome in ("fall", "continue")]
         bad = set()
@@ -399,10 +416,11 @@ def sym_for(ex, ctx, st, s, view):
         if not bad:
             break
         typed_vars -= bad
-    cls_loc, cls_heap = classify(ex, ctx, st, W, attrs, h_loc, h_heap, cont1, hsyms, st.tracked, typed_vars, s0)
+    cls_loc, cls_heap = classify(ex, gpc, st, W, attrs, h_loc, h_heap, cont1, hsyms, st.tracked, typed_vars, s0)
 
     # ---------------- pre-state as a function of the iteration index
     hv_fun = {}
+    idx0 = list(st.idx)
 
     def pre_state(c2, st2, jj):
         f2 = st2.frames[fr_i]
@@ -421,15 +439,14 @@ def sym_for(ex, ctx, st, s, view):
                 elif init.k == fj.k and init.k in ("int", "bool", "str", "flt"):
                     f2.vars[v] = SV(init.k, simp(z3.If(jj == 0, init.t, fj.t)))
                 elif init.k == "py":
-                    f2.vars[v] = mk_any(z3.Const(f"hv_{v}!{ctx.explorer.uid}", V)) if False else fj
+                    f2.vars[v] = fj
                 else:
                     f2.vars[v] = mk_any(simp(z3.If(jj == 0, box(init), box(fj))))
             else:
                 key = ("L", v)
                 if key not in hv_fun:
-                    hv_fun[key] = z3.Function(f"hv_{v}!{ctx.explorer.uid}.{ctx.fresh_n}.{len(hv_fun)}",
-                                              *[i.sort() for i in st.idx], Int, V)
-                hv = hv_fun[key](*st.idx, jj)
+                    hv_fun[key] = z3.Function(f"hv_{v}!{uid}", *[i.sort() for i in idx0], Int, V)
+                hv = hv_fun[key](*idx0, jj)
                 tk = f  # kind kept by every continue path (typed havoc) or None
                 if init is None or init.k == "py":
                     f2.vars[v] = mk_any(hv)
@@ -445,9 +462,9 @@ def sym_for(ex, ctx, st, s, view):
             else:
                 key = ("H", a)
                 if key not in hv_fun:
-                    hv_fun[key] = z3.Function(f"hvH_{a.replace('$', 'S')}!{ctx.explorer.uid}.{ctx.fresh_n}.{len(hv_fun)}",
-                                              *[i.sort() for i in st.idx], Int, heap0[a].sort())
-                hv = hv_fun[key](*st.idx, jj)
+                    hv_fun[key] = z3.Function(f"hvH_{a.replace('$', 'S')}!{uid}", *[i.sort() for i in idx0], Int,
+                                              heap0[a].sort())
+                hv = hv_fun[key](*idx0, jj)
                 arr = z3.If(jj == 0, heap0[a], hv)
                 st2.heap[a] = simp(arr)
                 for tr in kept:
@@ -455,38 +472,69 @@ def sym_for(ex, ctx, st, s, view):
         if inv is not None:
             c2.assume(eval_inv(c2, st2, jj))
 
+    L.pre_state = pre_state
+
     # ---------------- pass 2
     def setup2(c2, st2):
         pre_state(c2, st2, j)
 
     def on_cont(c2, st2):
         if inv is not None:
-            c2.oblige(f"{fr.fname}#loop{n_loop}.invariant-preserved", eval_inv(c2, st2, j + 1),
+            c2.oblige(f"{fr.fname}#loop{n_loop}.invariant-preserved", eval_inv(c2, st2, j + 1, as_goal=True),
                       {"kind": "loop-invariant", "line": s.lineno})
 
-    sub2 = Explorer(base_pc=ctx.pc + base, branch_timeout_ms=ctx.explorer.branch_timeout_ms, stats=stats)
+    sub2 = Explorer(base_pc=gpc + base, branch_timeout_ms=branch_timeout_ms, stats=stats)
     res2 = sub2.explore(_run_body(ex, st, s, view, j, setup2, on_cont))
-    cont2 = [r for r in res2 if r.outcome in ("fall", "continue")]
-    exits = [r for r in res2 if r.outcome not in ("fall", "continue")]
-    for r in res2:
+    L.cont = [r for r in res2 if r.outcome in ("fall", "continue")]
+    L.exits = [r for r in res2 if r.outcome not in ("fall", "continue")]
+    L.res2 = res2
+    cj = z3.Or(*[z3.And(*r.pc) if r.pc else z3.BoolVal(True) for r in L.cont]) if L.cont else z3.BoolVal(False)
+    L.cj = simp(cj)
+    L.uid = uid
+    return L
+
+
+def loop_cache_key(ex, st, s, view):
+    from .calls import state_sig
+    return (id(s), z3.simplify(view.n).get_id(), view.desc, state_sig(st), tuple(i.get_id() for i in st.idx),
+            tuple(t.get_id() for t in st.tracked))
+
+
+def sym_for(ex, ctx, st, s, view):
+    gpc = global_facts(ctx)
+    key = loop_cache_key(ex, st, s, view) + (tuple(c.get_id() for c in gpc),)
+    ent = _LOOP_CACHE.get(key)
+    if ent is None:
+        L = compute_loop_summary(ex, gpc, st, s, view, ctx.explorer.stats, ctx.explorer.branch_timeout_ms)
+        # keep the z3 terms of the key alive together with the entry (ids are only unique while alive)
+        _LOOP_CACHE[key] = (L, gpc, view, st.copy())
+    else:
+        L = ent[0]
+    j, n = L.j, L.n
+    fr = st.frames[L.fr_i]
+    if L.inv is not None:
+        ctx.oblige(f"{fr.fname}#loop{L.n_loop}.invariant-initial", L.eval_inv(ctx, st, z3.IntVal(0), as_goal=True),
+                   {"kind": "loop-invariant", "line": s.lineno})
+    from .state import Obligation
+    for r in L.res2:
         for ob in r.obligations:
-            ob.meta = dict(ob.meta, generic_iteration=True)
-            ctx.obligations.append(ob)
+            nob = Obligation(ob.name, ctx.pc + ob.pc, ob.goal, dict(ob.meta, generic_iteration=True))
+            ctx.obligations.append(nob)
         ctx.assumptions_used.extend(r.assumptions)
-    cj = z3.Or(*[z3.And(*r.pc) if r.pc else z3.BoolVal(True) for r in cont2]) if cont2 else z3.BoolVal(False)
-    cj = simp(cj)
+    cj = L.cj
 
     def all_before(k):
-        q = z3.Int(f"q!{ctx.explorer.uid}.{ctx.fresh_n}")
+        q = z3.Int(f"q!{L.uid}")
         body = z3.substitute(cj, (j, q))
         return z3.ForAll([q], z3.Implies(z3.And(q >= 0, q < k), body))
 
+    exits = L.exits
     d = ctx.choose(1 + len(exits))
     if d == 0:
         ctx.assume(n >= 0)
         if not z3.is_true(cj):
             ctx.constrain(all_before(n))
-        pre_state(ctx, st, n)
+        L.pre_state(ctx, st, n)
         ctx.check_feasible()
         ex.exec_block(ctx, st, s.orelse)
         return
@@ -497,18 +545,18 @@ def sym_for(ex, ctx, st, s, view):
     if not z3.is_true(cj):
         ctx.constrain(all_before(k))
     for c, kd in zip(p.pc, p.kinds):
-        if kd == "A":
-            ctx.assume(z3.substitute(c, *pairs))
+        if kd in ("A", "G"):
+            ctx.assume(z3.substitute(c, *pairs), glob=(kd == "G"))
         else:
             ctx.constrain(z3.substitute(c, *pairs))
     ctx.check_feasible()
     # adopt the exit path's final state at index k
-    ps = p.state
+    ps = p.state.copy()
     subst_state(ps, pairs)
     st.heap = ps.heap
     st.frames = ps.frames
     st.ghost = ps.ghost
-    st.idx = st.idx  # leave generic index scope
+    st.idx = st.idx[:len(st.idx)]  # leave generic index scope (idx of the entry state)
     st.tracked = ps.tracked
     if p.outcome == "break":
         return
@@ -567,10 +615,10 @@ def exec_while(ex, ctx, st, s):
         for a in attrs:
             st2.heap[a] = h_heap[a]
 
-    sub1 = Explorer(base_pc=ctx.pc + [j >= 0], branch_timeout_ms=ctx.explorer.branch_timeout_ms, stats=stats)
+    sub1 = Explorer(parent=ctx, base_kinds=ctx.kinds, base_pc=ctx.pc + [j >= 0], branch_timeout_ms=ctx.explorer.branch_timeout_ms, stats=stats)
     res1 = sub1.explore(run_iter(setup1))
     cont1 = [r for r in res1 if r.outcome in ("fall", "continue")]
-    cls_loc, cls_heap = classify(ex, ctx, st, W, attrs, h_loc, h_heap, cont1, hsyms, st.tracked)
+    cls_loc, cls_heap = classify(ex, global_facts(ctx), st, W, attrs, h_loc, h_heap, cont1, hsyms, st.tracked)
     hv_fun = {}
 
     def setup2(c2, st2):
@@ -599,7 +647,7 @@ def exec_while(ex, ctx, st, s):
                 for tr in kept:
                     c2.assume(z3.Select(hv, tr) == z3.Select(heap0[a], tr))
 
-    sub2 = Explorer(base_pc=ctx.pc + [j >= 0], branch_timeout_ms=ctx.explorer.branch_timeout_ms, stats=stats)
+    sub2 = Explorer(parent=ctx, base_kinds=ctx.kinds, base_pc=ctx.pc + [j >= 0], branch_timeout_ms=ctx.explorer.branch_timeout_ms, stats=stats)
     res2 = sub2.explore(run_iter(setup2))
     exits = [r for r in res2 if r.outcome not in ("fall", "continue")]
     for r in res2:
@@ -613,8 +661,8 @@ def exec_while(ex, ctx, st, s):
     pairs = [(j, k)]
     ctx.constrain(k >= 0)
     for c, kd in zip(p.pc, p.kinds):
-        if kd == "A":
-            ctx.assume(z3.substitute(c, *pairs))
+        if kd in ("A", "G"):
+            ctx.assume(z3.substitute(c, *pairs), glob=(kd == "G"))
         else:
             ctx.constrain(z3.substitute(c, *pairs))
     ctx.check_feasible()
@@ -673,7 +721,7 @@ def pure_generic(ex, ctx, st, frame, g, exprs, view, j, extra_guard=None):
         except RaiseEx as r:
             return st2, "raise", r
 
-    sub = Explorer(base_pc=ctx.pc + [j >= 0, j < view.n], branch_timeout_ms=ctx.explorer.branch_timeout_ms,
+    sub = Explorer(parent=ctx, base_kinds=ctx.kinds, base_pc=ctx.pc + [j >= 0, j < view.n], branch_timeout_ms=ctx.explorer.branch_timeout_ms,
                    stats=ctx.explorer.stats)
     res = sub.explore(run)
     return res
